@@ -170,10 +170,11 @@ type genRec struct {
 	Div    int
 }
 
-var c19GenMenu = []genRec{{false, 0, 1}, {false, 2, 3}, {true, 1, 1}, {true, 3, 3}, {false, 3, 1}, {true, 2, 1}}
-var c19Fitness = []float64{0.5, 1, 2, 2}
+// (fitness values include zero and a negative one: a trial may have no champion of positive fitness)
+var c19GenMenu = []genRec{{false, 0, 1}, {false, 2, 3}, {true, 1, 1}, {true, 3, 3}, {false, 4, 1}, {true, 2, 1}}
+var c19Fitness = []float64{0, 1, 2, 2, -1.25}
 
-var c19ChampSpecs = []*GenomeSpec{xorSeed(), evolvedSeed(), disconnectedSeed(), evolvedSeed()}
+var c19ChampSpecs = []*GenomeSpec{xorSeed(), evolvedSeed(), disconnectedSeed(), evolvedSeed(), hbGenome(1, 1, 0)}
 
 func c19Champion(fitIdx int) (*genetics.Organism, int, int) {
 	g := c19ChampSpecs[fitIdx].Build()
